@@ -8,7 +8,7 @@ from ..cfg import NORMAL, Node
 from ..core import Ctx
 from ..flow import ALL, find_path, names_in
 from ..model import AnalysisError, FunctionInfo, dotted, norm_text
-from .common import edge_target, fold_str, kwarg, path_arg, reachable_from
+from .common import effective_compare, edge_target, fold_str, kwarg, path_arg, reachable_from
 
 EXPLANATION = (
     "Static analysis of GarbageCollector: (R1) the reachability walk covers every retained snapshot - loop "
@@ -277,7 +277,20 @@ def r3(ctx: Ctx, rid: str) -> None:
     mp = membership_param(ctx)
     mem = [b for b in g.nodes if b.kind == "branch" and isinstance(b.ast, ast.Compare)
            and isinstance(b.ast.ops[0], (ast.NotIn, ast.In)) and mp in names_in(b.ast.comparators[0])]
-    age = [b for b in g.nodes if b.kind == "branch" and isinstance(b.ast, ast.Compare) and "get_modified_time" in b.text]
+    gsl = ctx.slicer(gp)
+
+    def has_stat(org) -> bool:
+        return any(isinstance(c, ast.Call) and isinstance(c.func, ast.Attribute) and c.func.attr == "get_modified_time" for c in org["calls"])
+
+    # age branches: an ordering comparison with the file's modification time on exactly one side (found by data flow)
+    age_info = {}
+    for b in g.nodes:
+        ec = effective_compare(ctx, gp, b) if b.id in g.reachable() else None
+        if ec is not None and len(ec[0].ops) == 1 and isinstance(ec[0].ops[0], (ast.Lt, ast.LtE, ast.Gt, ast.GtE)):
+            lo, ro = gsl.origins(ec[0].left, ec[1]), gsl.origins(ec[0].comparators[0], ec[1])
+            if has_stat(lo) != has_stat(ro):
+                age_info[b.id] = (has_stat(lo), ro if has_stat(lo) else lo, ec[0])
+    age = [g.nodes[i] for i in age_info]
     for d in dels:
         ok_mem = False
         for b in mem:
@@ -292,14 +305,12 @@ def r3(ctx: Ctx, rid: str) -> None:
                "a listed file is deleted only if its normalised path is NOT in the reachable/protected set")
         ok_age = False
         for b in age:
-            cmp_ = b.ast
-            assert isinstance(cmp_, ast.Compare)
-            lt = isinstance(cmp_.ops[0], (ast.Lt, ast.LtE)) and "get_modified_time" in norm_text(cmp_.left)
-            gt = isinstance(cmp_.ops[0], (ast.Gt, ast.GtE)) and "get_modified_time" in norm_text(cmp_.comparators[0])
-            lab_ok = "true" if (lt or gt) else None
-            if lab_ok is None:
-                continue
-            t, fl = edge_target(g, b, "true"), edge_target(g, b, "false")
+            cmp_ = age_info[b.id][2]
+            stat_left = age_info[b.id][0]
+            is_lt = isinstance(cmp_.ops[0], (ast.Lt, ast.LtE))
+            older_on_true = (is_lt and stat_left) or (not is_lt and not stat_left)  # mtime < cutoff  /  cutoff > mtime
+            lab_ok, lab_bad = ("true", "false") if older_on_true else ("false", "true")
+            t, fl = edge_target(g, b, lab_ok), edge_target(g, b, lab_bad)
             loops = [n.id for n in g.nodes if n.kind == "loop"]
             if t is not None and d.id in reachable_from(g, t, NORMAL, avoid=loops) and \
                     (fl is None or d.id not in reachable_from(g, fl, NORMAL, avoid=loops)):
@@ -310,12 +321,27 @@ def r3(ctx: Ctx, rid: str) -> None:
         stat = [n for n in ctx.calls(gp, storage="get_modified_time")]
         ctx.ob(rid, gp, "the file deleted is the file whose age was tested", d,
                bool(stat) and all(norm_text(path_arg(s)) == norm_text(pa) for s in stat), "same path expression in stat and delete")
-    cut_names = {nm for b in age for nm in names_in(b.ast) if "." not in nm and nm not in ("self", "file_rel_path")}
-    cutoff_defs = [n for n in g.nodes if n.kind == "stmt" and isinstance(n.ast, ast.Assign)
-                   and any(isinstance(t, ast.Name) and t.id in cut_names for t in n.ast.targets) and "time" in norm_text(n.ast.value)]
-    okc = any(isinstance(n.ast.value, ast.BinOp) and isinstance(n.ast.value.op, ast.Sub) and "grace_period" in norm_text(n.ast.value.right)
-              and "time" in norm_text(n.ast.value.left) for n in cutoff_defs)
-    ctx.ob(rid, gp, "cutoff = now - grace period", cutoff_defs[0] if cutoff_defs else None, okc,
+    gparam = next((p.name for p in gp.params if "grace" in p.name), None)
+    if gparam is None:
+        raise AnalysisError("anchor vanished: _gc_prefix has no grace-period parameter")
+    okc = bool(age)
+    wit = None
+    for b in age:
+        corg = age_info[b.id][1]
+        subs = [x for e in corg["exprs"] for x in ast.walk(e) if isinstance(x, ast.BinOp) and isinstance(x.op, ast.Sub)]
+        good = False
+        for x in subs:
+            at = b.id
+            ro_ = gsl.origins(x.right, at)
+            lo_ = gsl.origins(x.left, at)
+            if (gparam in ro_["params"] or gparam in names_in(x.right)) and \
+                    any((dotted(c.func) or "").endswith("time.time") or (dotted(c.func) or "") == "time" for c in lo_["calls"] | {y for y in ast.walk(x.left) if isinstance(y, ast.Call)}) and \
+                    gparam not in lo_["params"] and gparam not in names_in(x.left):
+                good = True
+        if not good:
+            okc = False
+            wit = b
+    ctx.ob(rid, gp, "cutoff = now - grace period", wit or (age[0] if age else None), okc,
            "the cutoff is the current time minus the grace period")
     col = ctx.fn(GC + ".collect")
     sl = ctx.slicer(col)
